@@ -55,6 +55,7 @@ func init() {
 					var fired []string
 					// operations (type and key) whose last execution was hit by a fault: a fault-free repeat clears the entry
 					pendingFail := map[string]bool{}
+					firstKey, firstRecovered := "", false // the first fault that fired, and whether that operation was later repeated successfully
 					n := 0
 					arm := func() {
 						n = 0
@@ -63,8 +64,16 @@ func init() {
 							seen = append(seen, cmd.Op)
 							for _, f := range faults {
 								if f.k == n || (f.kind == "outage" && n >= f.k) {
+									if cmd.Op != "get" && (f.kind == "corrupt" || f.kind == "truncate" || f.kind == "short" || f.kind == "missing") {
+										// a value fault only exists for a read: at this position the implementation issued another
+										// operation than the scenario's (it has diverged from it) - nothing is injected
+										continue
+									}
 									fired = append(fired, cmd.Op+":"+f.kind)
 									pendingFail[cmd.Op+" "+cmd.Key] = true
+									if firstKey == "" {
+										firstKey = cmd.Op + " " + cmd.Key
+									}
 									if f.kind == "outage" {
 										return &vpStoreFault{Kind: "err_before"}
 									}
@@ -72,6 +81,9 @@ func init() {
 								}
 							}
 							delete(pendingFail, cmd.Op+" "+cmd.Key)
+							if firstKey != "" && firstKey == cmd.Op+" "+cmd.Key {
+								firstRecovered = true
+							}
 							return nil
 						}
 					}
@@ -138,7 +150,21 @@ func init() {
 					obs["panic"] = r.Panic != ""
 					obs["opsSeen"] = seen
 					obs["fired"] = fired
-					obs["recovered"] = len(fired) > 0 && len(pendingFail) == 0
+					obs["recovered"] = len(fired) > 0 && (len(pendingFail) == 0 || firstRecovered)
+					// does the operation sequence up to the FIRST fault still follow the scenario's (as the model has it)?  (after a
+					// fault the flow legitimately leaves the healthy sequence)
+					kmax := 1 << 30
+					for _, f := range faults {
+						if f.k < kmax {
+							kmax = f.k
+						}
+					}
+					model := vpSeq(c.In["ops"])
+					for i := 0; i < kmax && i < len(model) && i < len(seen); i++ {
+						if seen[i] != model[i] {
+							obs["opsDiverged"] = true
+						}
+					}
 					// a cookie that was handed out: does it load a session now that the store is healthy?
 					obs["brokenCookie"] = false
 					if obs["session"] == "set" {
